@@ -393,6 +393,42 @@ def special_value_cases(tier):
                         continue  # the all-zero lane is a genuine kink
                     yield dict(name="norm with zero entries %s ord=%r axis=%r keepdims=%r" % (x.shape, ord_, axis, keepdims), op="norm", operands=[x], zero_where_input_zero=True,
                                mg=(lambda o, ax, k: lambda a: norm(a, ord=o, axis=ax, keepdims=k))(ord_, axis, keepdims), shadow=sh, np=None)
+    # extreme but legal operand values: the derivative is finite and well defined, a naive formula overflows
+    def st_lae(a, b):
+        m = np.where(np.real(a) > np.real(b), a, b)
+        d = np.where(np.real(a) > np.real(b), b - a, a - b)
+        return m + np.log1p(np.exp(d))
+
+    def st_lae2(a, b):
+        return st_lae(a * np.log(2.0), b * np.log(2.0)) / np.log(2.0)
+
+    for a, b in ((-1000.0, 0.0), (0.0, 800.0), (800.0, 0.0), (0.0, -1000.0), (1100.0, -1100.0), (-1100.0, 1100.0), (0.5, 0.25)):
+        av, bv = np.array([a, 0.5]), np.array([b, -0.25])
+        yield dict(name="logaddexp extreme (%g, %g)" % (a, b), op="logaddexp", operands=[av, bv], mg=lambda x, y: mg.logaddexp(x, y), shadow=st_lae, np=np.logaddexp)
+        yield dict(name="logaddexp2 extreme (%g, %g)" % (a, b), op="logaddexp2", operands=[av, bv], mg=lambda x, y: mg.logaddexp2(x, y), shadow=st_lae2, np=np.logaddexp2)
+    big = np.array([[500.0, -500.0, 0.0], [-800.0, -790.0, -795.0]])
+    from mygrad.nnet.activations import logsoftmax, sigmoid, softmax
+    from mygrad.nnet.losses import softmax_crossentropy
+
+    def st_lsm(x):
+        m = x[np.arange(x.shape[0]), np.argmax(x.real, axis=1)][:, None]
+        return x - m - np.log(np.sum(np.exp(x - m), axis=1, keepdims=True))
+
+    yield dict(name="logsoftmax large logits", op="logsoftmax", operands=[big], mg=lambda x: logsoftmax(x), shadow=st_lsm, np=None)
+    yield dict(name="softmax large logits", op="softmax", operands=[big], mg=lambda x: softmax(x), shadow=lambda x: np.exp(st_lsm(x)), np=None)
+    yield dict(name="softmax_crossentropy large logits", op="softmax_crossentropy", operands=[big], mg=lambda x: softmax_crossentropy(x, np.array([1, 2])),
+               shadow=lambda x: -np.sum(st_lsm(x)[np.arange(2), np.array([1, 2])]) / 2, np=None)
+    xs = np.array([30.0, -30.0, 700.0, -700.0, 0.0])
+    yield dict(name="sigmoid saturated", op="sigmoid", operands=[xs], mg=lambda x: sigmoid(x),
+               shadow=lambda x: np.where(np.real(x) >= 0, 1 / (1 + np.exp(-np.where(np.real(x) >= 0, x, 0))), np.exp(np.where(np.real(x) < 0, x, 0)) / (1 + np.exp(np.where(np.real(x) < 0, x, 0)))), np=None)
+    yield dict(name="tanh saturated", op="tanh", operands=[np.array([20.0, -20.0, 400.0, 0.25])], mg=lambda x: mg.tanh(x), shadow=np.tanh, np=np.tanh)
+    # operator forms of power with exponents for which Tensor.__pow__ has shortcuts (the exponent is an operand too)
+    for e in (1.0, 2.0, 3.0, 0.5):
+        for shape in ((3,), ()):
+            xb = vals(shape, 1, "pos")
+            yield dict(name="x ** p, 0-d tensor exponent %g, base %s" % (e, shape), op="power", operands=[xb, np.array(e)], mg=lambda x, p: x ** p, shadow=lambda x, p: x ** p, np=lambda x, p: x ** p)
+            yield dict(name="p ** x, 0-d tensor base %g, exponent %s" % (e + 1, shape), op="power", operands=[np.array(e + 1.0), xb], mg=lambda p, x: p ** x, shadow=lambda p, x: p ** x, np=lambda p, x: p ** x)
+            yield dict(name="x ** p, array exponent %g (scalar array operand)" % e, op="power", operands=[xb, np.array(e)], kinds=("t", "a"), mg=lambda x, p: x ** p, shadow=lambda x, p: x ** p, np=lambda x, p: x ** p)
     # where: every accepted kind of condition
     a, b = vals((2, 3), 1), vals((2, 3), 7)
     conds = [("bool array", np.array([[True, False, True], [False, False, True]])), ("int 0/1 array", np.array([[1, 0, 1], [0, 0, 1]])),
@@ -410,7 +446,8 @@ def special_value_cases(tier):
 INDEXES = [
     ("0", lambda: 0), ("-1", lambda: -1), ("1:", lambda: slice(1, None)), ("::-1", lambda: slice(None, None, -1)), ("::2", lambda: slice(None, None, 2)),
     ("-1::-2", lambda: slice(-1, None, -2)), ("...", lambda: ...), ("None", lambda: None), ("..., None", lambda: (..., None)), ("[0, 0, 1]", lambda: [0, 0, 1]),
-    ("array([1, 0])", lambda: np.array([1, 0])), ("int32 [1, 1]", lambda: np.array([1, 1], dtype=np.int32)), ("mask", lambda: "mask"), ("1:1", lambda: slice(1, 1)),
+    ("array([1, 0])", lambda: np.array([1, 0])), ("intp array with negative entries", lambda: np.array([0, -1, 1, -1, -2, 0])),
+    ("list with negative entries", lambda: [0, -1, -1]), ("int32 [1, 1]", lambda: np.array([1, 1], dtype=np.int32)), ("mask", lambda: "mask"), ("1:1", lambda: slice(1, 1)),
     ("[]", lambda: np.array([], dtype=int)), ("(0, 1)", lambda: (0, 1)), ("(:, [0, 2])", lambda: (slice(None), [0, 2])), ("([0, 1], [1, 1])", lambda: ([0, 1], [1, 1])),
     ("(1, ...)", lambda: (1, ...)), ("(None, 0)", lambda: (None, 0)), ("([1, 0], slice)", lambda: ([1, 0], slice(None, 2))),
 ]
